@@ -478,6 +478,26 @@ func (w *World) Stop() {
 	}
 }
 
+// wDrained polls (in simulated time) until none of the transports holds anything any more - no connection ID routed to a
+// connection or to a closed-connection handler, no stateless-reset token - or until bound has passed; it returns what is
+// left ("" = drained). Read through the overlay accessor quic.VerifTransportTables.
+func wDrained(names []string, trs []*quic.Transport, bound time.Duration) string {
+	t0 := time.Now()
+	for {
+		left := ""
+		for i, tr := range trs {
+			if live, closed, tok := quic.VerifTransportTables(tr); live+closed+tok > 0 {
+				left = fmt.Sprintf("%s: %d connection IDs routed to connections, %d to closed-connection handlers, %d stateless-reset tokens, %v after the workload ended", names[i], live, closed, tok, time.Since(t0).Round(time.Millisecond))
+				break
+			}
+		}
+		if left == "" || time.Since(t0) > bound {
+			return left
+		}
+		time.Sleep(250 * time.Millisecond)
+	}
+}
+
 // wOnStop, if set, sees every world when its driver has stopped (differential workloads capture the history here).
 var wOnStop func(w *World)
 
